@@ -67,6 +67,11 @@ CLAIMED = {
             "Trusted: the model table of Appendix D.6 including its explicitly unconstrained corners (model adopts the disk state there); tmpfs as the file system; EIO-class faults are not injected (no seam without changing /repo).",
             "deterministic simulation: seeded file-operation histories on a jailed real file system with path-shaped faults and a kernel-produced torn write vs file-tree reference model, full tree comparison after every step",
             "DESIGN.md section 3 C18, Appendix D.6"),
+    "C19": ("exploration",
+            "Seeded scripts invoke every script-implemented SDK command (discovered from the registry) with valid, short, wrong-kind and special-character argument lists, at top level, in loops, in a function and inside each other, many times in a row, in a caller context of 10-20 variables; the decorator fails inner commands so that each line of each script is an error exit. A before/after frame around every such invocation (at any depth) requires: caller variables unchanged (minus what unset documents), no internal variable left, temporary argument array gone. One known finding (caller variable under the command's own scope prefix) is listed in known_findings.json and kept out of the main stream.",
+            "Trusted: the frame taken by the decorator at Start/End (the output variable is assigned by the caller after End, hence outside the frame). Internal temporaries other than the argument array are outside the statement and only counted. Flow-control commands are never fault points.",
+            "deterministic simulation: error injection on every inner line of script-implemented commands (nested buggify) with before/after frame oracle on variables and handle table",
+            "DESIGN.md section 3 C19, Appendix D.7"),
 }
 
 NOT_YET = {k: "applicable and planned (DESIGN.md section 3) but its check is not built yet; not claimed until it is" for k in
